@@ -12,18 +12,29 @@ SPEC = {
              "failure at instance i; in a third of the endless and per-instance cases the provider buffers its whole finite ammo set and its "
              "Run returns at once (fake provider queue = ammo count, after_last = return) while the startup profile is still releasing "
              "tokens and more ammo is queued than the run can shoot (checked afterwards: fewer ammo taken than queued) - Run returning is "
-             "not 'ammo ran out', every startup token must still become an instance; the real engine with recording doubles, 24 cases concurrently per process (sleep-bound). "
+             "not 'ammo ran out', every startup token must still become an instance; in a third of the endless and bounded-ammo cases the "
+             "pool-wide RPS profile has no known length: `unlimited` (120 s) alone, or a composite of 1-2 short parts (unlimited / const / once / "
+             "pause, 1-40 ms, 1-12 tokens; the sections switch while the startup profile is still releasing tokens) and a 120 s tail "
+             "(unlimited, or const when a head part is unlimited) - such a profile answers Left() < 0 ('unknown'), which is not "
+             "'finished': it outlasts the startup and every startup token must still become an instance (shots take >= 300 us there); the real engine with recording doubles, 24 cases concurrently per process (sleep-bound). "
              "Non-trivial = >= 2 instances over >= 2 distinct startup instants; distinct = hash of the case."),
     "floors": {"TestStartup/mode_long": 0.15, "TestStartup/cut_short_ammo": 0.02, "TestStartup/cut_short_creation_failed": 0.03,
                "TestStartup/composite_startup": 0.3, "TestStartup/all_tokens_started": 0.3,
                "TestStartup/per_instance_profile_shorter_than_startup": 0.019,
                "TestStartup/provider_run_returned_early_ammo_left": 0.1,
-               "TestStartup/provider_run_returned_before_last_startup_token": 0.03},
+               "TestStartup/provider_run_returned_before_last_startup_token": 0.03,
+               # classes added after seeded defect C12/m7 (shared RPS profile of unknown length taken for a finished one)
+               "TestStartup/shared_rps_unknown_length": 0.09, "TestStartup/shared_rps_unknown_length/long": 0.06,
+               "TestStartup/shared_rps_unknown_length_startup_spread_in_time": 0.045,
+               "TestStartup/shared_rps_unknown_length_all_spread_tokens_must_start": 0.02,
+               "TestStartup/shared_rps_unlimited_alone": 0.01, "TestStartup/shared_rps_composite_unlimited_tail": 0.04,
+               "TestStartup/shared_rps_composite_unlimited_head_const_tail": 0.02},
     "manifest": {
         "technique": "property-based testing (rapid generators, batch-parallel) of the real engine; validity predicates over measured instants",
         "text": ("Startup profiles are generated, the engine is run with recording doubles, and measured instants are compared: the k-th gun "
                  "creation never precedes the k-th startup token (reference chain of the profile's parts), ids are 0..S-1, S equals the "
-                 "token count unless ammo/shared profile/creation failure/cancel cut the start short, and no instance stops before the "
+                 "token count unless ammo/shared profile/creation failure/cancel cut the start short (a shared profile that cannot tell how "
+                 "many tokens it has left - unlimited, or a composite with an unlimited part ahead - has not finished), and no instance stops before the "
                  "earliest instant at which ammo ran out, the shared profile was exhausted or the run was cancelled."),
         "note": ("Only measured instants are compared (a timer cannot fire early, so load can only delay creations, which the oracle "
                  "allows). Startup token times come from the C02 reference chain. Instance stop = its gun's Close instant. The one comparison with "
